@@ -18,6 +18,7 @@ EXPLANATION = (
     "returns gen_bool(self.p) of the state's generator; And/Or over 0..3 operands with every outcome vector: each "
     "operand's evaluate is called exactly once and the result is all()/any(); Not negates. The loop counter is "
     "decided in C03.R3. (INIT) init() evaluated with every field of self a distinct symbol inserts exactly the state types of a reviewed table, under the component's own instantiation, each built from exactly the documented field or empty / zero. (R8) ValueOf<T> / IdLens<T>: get_ref / get_mut hand out the registry's guard for the lens' own T, get a clone of it, a missing T is an Err; assign stores through get_mut; PopulationSizeLens is the size of the TOP population. (R9) the loop shapes `init; while { body }` and `init; while { ..; scope { while { .. } }; .. }` make exactly the scripted passes, each loop on its own counter (bounded program semantics of C03 on Configuration::run). NOT decided: the probability of RandomChance, exact pass counts for arbitrary lenses.")
+EXPLANATION += " " + '(R1/R3/R4/R8 revised) LessThanN, OptimumReached, ChangeOf and the ValueOf / IdLens lenses are evaluated over the typed store (K19): the progress / the remembered value the state HOLDS afterwards, the real State::best_* sugar on a BestIndividual that holds an individual, is empty, or is absent; lenses hand out exactly (the inner value of) their own T.'
 ASSUMPTIONS = ["lenses return the value they are named for (lens wiring is checked where a property names it)"]
 
 CC = "mahf::conditions::common::"
